@@ -571,6 +571,7 @@ pub fn exhaustive_case(len: u32, idx: u64, rng: &mut Rng, obs: &mut Obs) {
     let mut nontrivial = 0u64;
     let mut history: Vec<Op> = vec![Op::Begin; len as usize];
     let mut cont: Vec<Op> = vec![Op::Begin; CONT_LEN];
+    let mut sampled = false;
     for low in 0..chunk {
         let h = idx * chunk + low;
         let mut x = h;
@@ -590,18 +591,27 @@ pub fn exhaustive_case(len: u32, idx: u64, rng: &mut Rng, obs: &mut Obs) {
         if nontrivial_marker(&sh) > before {
             nontrivial += 1;
         }
-        if low == 4321 && obs.wants_sample() {
-            let mut ls: Lockstep<HashBacked> = Lockstep::new();
-            let mut scratch = Stats::default();
+        if !sampled && obs.wants_sample() {
+            // sample the first history of the chunk that leaves hidden values behind open groups
+            let mut m = Model::new();
             for op in &history {
-                let _ = ls.step(*op, &SMALL_KEYS, &mut scratch);
+                apply_model(&mut m, *op);
             }
-            obs.sample(json!({
-                "history": show_ops(&history),
-                "continuation_after_rebuild": show_ops(&cont),
-                "model_snapshots_after_history": ls.model.snapshots(),
-                "iter_all_of_real_hashmap": show_replay(&replay_of(&ls.real)),
-            }));
+            if m.pending_restores() >= 2 {
+                sampled = true;
+                let mut ls: Lockstep<HashBacked> = Lockstep::new();
+                let mut scratch = Stats::default();
+                for op in &history {
+                    let _ = ls.step(*op, &SMALL_KEYS, &mut scratch);
+                }
+                obs.sample(json!({
+                    "history": show_ops(&history),
+                    "continuation_after_rebuild": show_ops(&cont),
+                    "model_snapshots_after_history_outermost_first": ls.model.snapshots(),
+                    "iter_all_of_real_hashmap": show_replay(&replay_of(&ls.real)),
+                    "checked": "return value, get, len, is_empty, iter, group count after each op; rebuild; continuation; unwind",
+                }));
+            }
         }
     }
     obs.add("gm_exhaustive_histories", chunk);
